@@ -2,7 +2,7 @@
 From Coq Require Import ZArith Reals List Lia Lra.
 From Flocq Require Import Core BinarySingleNaN.
 From GCL Require Proofs.TablesOk.
-From GCL Require Import Base.F64 Base.F64Facts Model.Measure Model.Limits Proofs.AimdProofs Proofs.VegasSafe Proofs.GradSafe Proofs.GradDrop Proofs.VegasDrop Proofs.DropRuns.
+From GCL Require Import Base.F64 Base.F64Facts Model.Measure Model.Limits Proofs.AimdProofs Proofs.VegasSafe Proofs.GradSafe Proofs.GradDrop Proofs.VegasDrop Proofs.DropRuns Proofs.GradFloor Proofs.VegasFloor.
 
 (* AIMD moves exactly to max(1, min(limit-1, floor(limit x ratio))), the product being the binary64 product
    (round-to-nearest-even of the real product) that the implementation computes. *)
@@ -77,3 +77,41 @@ Proof.
   - repeat split; auto; rewrite ?E50, ?E0; simpl; lra.
   - rewrite E50, E1. simpl. lra.
 Qed.
+
+(* AIMD reaches its floor: every run of drop samples brings the limit to at most max(1, limit - n), hence to exactly 1 within (limit - 1)
+   samples - the bound "a number of samples bounded by the configuration" - and keeps it there *)
+Theorem C06_aimd_floor_reached ss a : (1 <= a_limit a < 2^52)%Z -> fin (a_ratio a) = true -> (0 <= R (a_ratio a) <= 1)%R ->
+  Forall (fun s => s_drop s = true) ss -> (a_limit a - 1 <= Z.of_nat (length ss))%Z -> a_limit (aimd_run a ss) = 1%Z.
+Proof. exact (aimd_floor_reached ss a). Qed.
+Print Assumptions C06_aimd_floor_reached.
+
+(* Gradient reaches its floor: every drop sample (probe step or not) contracts the stored estimate, est' <= max(floor, est x (1 - smoothing/4)) with
+   floor = max(min, 4); so n drops leave est_n <= max(floor, est_0 x (1 - smoothing/4)^n), never below the floor, and once
+   est_0 x (1 - smoothing/4)^n < floor + 1 - i.e. after log(est_0/floor) / -log(1 - smoothing/4) samples, a bound fixed by the configuration -
+   the reported estimate is exactly the floor. *)
+Theorem C06_gradient_contracts g Mx s o : GInv g Mx -> gsample_ok s -> s_drop s = true ->
+  (/ 1099511627776 <= R (g_s g))%R -> (4 <= R (g_est g))%R -> grad_step g s = Some o ->
+  (R (g_est (o_st o)) <= Rmax (IZR (gfloor g)) (R (g_est g) * (1 - R (g_s g) / 4)))%R.
+Proof. exact (grad_drop_contracts g Mx s o). Qed.
+Print Assumptions C06_gradient_contracts.
+
+Theorem C06_gradient_floor_reached Mx ss g g' : GInv g Mx -> (4 <= R (g_est g))%R -> (/ 1099511627776 <= R (g_s g))%R ->
+  Forall (fun s => gsample_ok s /\ s_drop s = true) ss -> grad_run g ss = Some g' ->
+  (R (g_est g) * (1 - R (g_s g) / 4) ^ length ss < IZR (gfloor g) + 1)%R ->
+  grad_est g' = gfloor g.
+Proof. exact (grad_floor_reached Mx ss g g'). Qed.
+Print Assumptions C06_gradient_floor_reached.
+
+(* Vegas reaches its floor: a drop sample that reaches updateEstimatedLimit (branch 3: it neither probes nor lowers the baseline) lowers the
+   stored estimate by at least smoothing/40 while it is >= 7/4 and keeps it <= 15/8 afterwards; n such samples leave
+   est_n <= max(15/8, est_0 - n x smoothing/40), so the reported estimate is the floor 1 within 40 x est_0 / smoothing samples. *)
+Theorem C06_vegas_contracts v M s o : VInv v M -> sample_ok s -> s_drop s = true ->
+  vegas_step v s = Some o -> o_branch o = 3%Z ->
+  (R (v_est (o_st o)) <= Rmax (15/8) (R (v_est v) - R (v_smooth v) / 40))%R.
+Proof. exact (vegas_drop_contracts v M s o). Qed.
+Print Assumptions C06_vegas_contracts.
+
+Theorem C06_vegas_floor_reached M ss v v' : VInv v M -> Forall (fun s => sample_ok s /\ s_drop s = true) ss ->
+  vegas_run_upd v ss = Some v' -> (R (v_est v) - INR (length ss) * (R (v_smooth v) / 40) < 2)%R -> vegas_est v' = 1%Z.
+Proof. exact (vegas_floor_reached M ss v v'). Qed.
+Print Assumptions C06_vegas_floor_reached.
